@@ -60,7 +60,8 @@ def opRaw : OpFn := fun view inp out => do
   -- statement: `!binary:` + base64 of any length is the bytes; `!null` is 05 00; `!empty` is nothing
   let spec : Option (List UInt8) :=
     if s = "!null" then some [5, 0] else if s = "!empty" then some []
-    else if s.startsWith "!binary:" && s.length > 8 then B64.dec (s.toUTF8.toList.drop 8) else none
+    -- line breaks inside the base64 text (a wrapped block scalar) are not part of the encoding
+    else if s.startsWith "!binary:" && s.length > 8 then B64.dec ((s.toUTF8.toList.drop 8).filter fun b => b != 10 && b != 13) else none
   let specOk := match spec with | some e => impl == some e | none => true
   let n := (model.map List.length).getD 0
   let br := if model.isNone then "rejected" else if n ≤ 768 then "short" else "long(>768)"
